@@ -2,6 +2,7 @@ SPECIFICATION Spec
 CONSTANTS
   Kind = "block"
   Scope = 1
+  Mode = "rw"
   Deviations = {"RotationKeepsCache"}
 VIEW vw
 INVARIANT CacheCoherent
